@@ -1,4 +1,6 @@
 import SpoxModel.Lemmas.VPHistory
+import SpoxModel.Lemmas.VPFeed
+import SpoxModel.Lemmas.VPFeedFixed
 import SpoxModel.Props.C15
 import SpoxModel.Generated.VPOverrides
 import SpoxModel.Generated.VPSampling
@@ -776,6 +778,130 @@ theorem generated_sampling_guarded :
     (Generated.VPSampling.listed.all fun n => Generated.VPSampling.sampling.contains ("", n)) = true ∧
     Generated.VPSampling.guardCalled = true ∧ Generated.VPSampling.inlineGuard = true ∧
     Generated.VPSampling.inlineSamplingGuard = true := by decide
+
+
+/-! ### the feed side: a kept value reaches the next backend call unchanged (round 10)
+
+`fold_correct` assumes that the backend computes the run-time meaning *of the values the input Vars carry*
+(`Faithful`). Between a Var's value and the evaluator sits `wrap_feed` (`to_ref_value` / `to_ort_value`,
+`Model/VPFeed.lean`), and between the evaluator and the next Var `unwrap_feed`. The theorems below say the two
+are inverse on every value `Node.inference` keeps: nothing is lost or altered on the way in. -/
+
+theorem normalise_idem (p : Payload) : p.normalise.normalise = p.normalise := by
+  cases p with
+  | arr dt sh pid => cases dt <;> simp [Payload.normalise, DT.isNumber, DT.norm]
+  | list _ => rfl
+  | some _ => rfl
+  | none => rfl
+
+/-- **feed_roundtrip** (full strength: every type of the class `feedOk`, any nesting depth, both backends).
+    A value that passed the guard of `Node.inference` (`check` on `PropValue(var.type, ·)`), converted by
+    `wrap_feed` of the selected backend and converted back by its `unwrap_feed` under the Var's type, is
+    `retype t ·` of itself: same containers, same arrays, same shapes, element type exactly the declared one,
+    nested PropValues declared with the element type. In particular the conversion back never raises. -/
+theorem feed_roundtrip (sel : BackendSel) (t : Ty) (p : Payload) (r : RefVal)
+    (hw : feedOk sel t = true) (hc : check Variant.fixed (PropValue.new t p) = true)
+    (hf : wrapFeed sel (PropValue.new t p).value = .ok r) :
+    unwrapFeed sel t r = .ok (.mk t (retype t (PropValue.new t p).value)) := by
+  have hc' : checkRec t p.normalise.normalise = true := by
+    rw [normalise_idem]
+    simpa [check, Variant.fixed, PropValue.new, PropValue.type, PropValue.value] using hc
+  cases sel with
+  | none => cases hf
+  | reference =>
+    simp only [wrapFeed, Except.ok.injEq] at hf
+    subst hf
+    exact fromRef_toRef t _ hw hc'
+  | onnxruntime =>
+    simp only [wrapFeed, Except.ok.injEq] at hf
+    subst hf
+    exact fromOrt_toOrt t _ hw hc'
+
+/-- On a tensor Var the round trip is the identity (the kept array already has the declared element type;
+    object arrays of `str` - which no backend conversion produces, `C15.tensor_value_never_object` - become string arrays). -/
+theorem feed_roundtrip_tensor (sel : BackendSel) (e : DT) (s : Shape) (dt : DT) (sh : List Nat) (pid : Nat)
+    (r : RefVal) (he : e.isElem = true) (hobj : dt ≠ .object)
+    (hc : check Variant.fixed (PropValue.new (.tensor e s) (.arr dt sh pid)) = true)
+    (hf : wrapFeed sel (PropValue.new (.tensor e s) (.arr dt sh pid)).value = .ok r) :
+    unwrapFeed sel (.tensor e s) r = .ok (PropValue.new (.tensor e s) (.arr dt sh pid)) := by
+  have h := feed_roundtrip sel (.tensor e s) (.arr dt sh pid) r
+    (by cases sel <;> simp [feedOk, Ty.refOk, Ty.ortOk, Ty.optFree, he]) hc hf
+  rw [h]
+  have hc' : dtMatch (if dt.isNumber then dt.norm else dt) e = true := by
+    have hc2 := hc
+    simp [check, Variant.fixed, PropValue.new, PropValue.type, PropValue.value, Payload.normalise,
+      checkRec, checkTensor_eq] at hc2
+    exact hc2.2
+  revert hc' he hobj
+  cases dt <;> cases e <;> simp [PropValue.new, Payload.normalise, retype, PropValue.value, DT.isNumber, DT.norm, dtMatch, DT.isElem]
+
+
+/-- **converted_value_roundtrips_exactly** (full strength, both backends, every type of the class, any depth).
+    A value that `unwrap_feed` produced from ANY raw backend result `r0` and that passed `check` - i.e. every
+    value an operator or inlined model ever attaches - is an exact fixed point of the feed: handed to the next
+    backend call by `wrap_feed` and read back under the same type it is the SAME PropValue (declared types of
+    nested elements included). -/
+theorem converted_value_roundtrips_exactly (sel : BackendSel) (t : Ty) (r0 : RefVal) (pv : PropValue)
+    (hw : feedOk sel t = true) (h0 : unwrapFeed sel t r0 = .ok pv) (hc : check Variant.fixed pv = true) :
+    ∃ fed, wrapFeed sel pv.value = .ok fed ∧ unwrapFeed sel t fed = .ok pv := by
+  have hnew : ∃ v, pv = PropValue.new t v := by
+    cases sel with
+    | none => cases h0
+    | reference => exact fromRef_new t r0 pv h0
+    | onnxruntime => exact fromOrt_new t r0 pv h0
+  obtain ⟨v, rfl⟩ := hnew
+  have hc' : checkRec t (PropValue.new t v).value = true := by
+    simpa [check, Variant.fixed, PropValue.new, PropValue.type, PropValue.value] using hc
+  have hfix : retype t (PropValue.new t v).value = (PropValue.new t v).value := by
+    cases sel with
+    | none => cases h0
+    | reference => exact fromRef_fixed t r0 _ hw h0 hc'
+    | onnxruntime => exact fromOrt_fixed t r0 _ hw h0 hc'
+  cases sel with
+  | none => cases h0
+  | reference =>
+    refine ⟨_, rfl, ?_⟩
+    rw [feed_roundtrip .reference t v _ hw hc rfl, hfix]
+    rfl
+  | onnxruntime =>
+    refine ⟨_, rfl, ?_⟩
+    rw [feed_roundtrip .onnxruntime t v _ hw hc rfl, hfix]
+    rfl
+
+def feedBack (sel : BackendSel) (t : Ty) (p : Payload) : Except Exc PropValue :=
+  match wrapFeed sel (PropValue.new t p).value with
+  | .ok r => unwrapFeed sel t r
+  | .error e => .error e
+
+def isNone : Except Exc PropValue → Bool
+  | .ok (.mk _ .none) => true
+  | _ => false
+
+/-- The hypothesis `feedOk` is needed - the code really loses values outside the class: an Optional directly
+    inside an Optional comes back from the REFERENCE representation as `None` (`[None]` is unwrapped), and a
+    Sequence of Optionals is fed to ONNXRUNTIME in the reference representation (`to_ort_value` converts nested
+    values with `to_ref_value`), which `from_ort_value` cannot read (TypeError). Neither type occurs as the type
+    of an ONNX operator output. -/
+theorem feed_roundtrip_counterexample :
+    (check Variant.fixed (PropValue.new (.opt (.opt C15.tI64x2)) (.some (.mk (.opt C15.tI64x2) .none))) = true ∧
+      isNone (feedBack .reference (.opt (.opt C15.tI64x2)) (.some (.mk (.opt C15.tI64x2) .none))) = true) ∧
+    (check Variant.fixed (PropValue.new (.seq (.opt C15.tI64x2))
+        (.list [.mk (.opt C15.tI64x2) (.some (.mk C15.tI64x2 (.arr .i64 [2] 1)))])) = true ∧
+      C15.raised (feedBack .onnxruntime (.seq (.opt C15.tI64x2))
+        (.list [.mk (.opt C15.tI64x2) (.some (.mk C15.tI64x2 (.arr .i64 [2] 1)))])) = some .typeError) := by
+  decide
+
+/-- non-vacuity: an `Optional(Sequence(Tensor))` value with an alias-dtype element and a differently declared
+    nested type goes through both representations and comes back as `retype` says. -/
+def feedDemoTy : Ty := .opt (.seq C15.tI64x2)
+def feedDemo : Payload :=
+  .some (.mk (.seq (.tensor .i64 none)) (.list [.mk (.tensor .i64 none) (.arr .longlong [2] 4), .mk C15.tI64x2 (.arr .i64 [2] 5)]))
+
+example : check Variant.fixed (PropValue.new feedDemoTy feedDemo) = true ∧ feedOk .reference feedDemoTy = true ∧
+    feedOk .onnxruntime feedDemoTy = true := by decide
+example : wrapFeed .reference feedDemo = .ok (.list [.list [.arr .longlong [2] 4, .arr .i64 [2] 5]]) ∧
+    wrapFeed .onnxruntime feedDemo = .ok (.list [.arr .longlong [2] 4, .arr .i64 [2] 5]) := by
+  constructor <;> rfl
 
 /-! ### the pinned tree -/
 
